@@ -134,7 +134,7 @@ func TestC12(t *testing.T) {
 		}
 		updaterStorm(t, r)
 	}
-	r.Require("handle_reads_during_updater_storm", "reads_after_close_with_cache_fault", "rollback_polls", "handles_from_racing_lookups", "reads_validated", "reads_after_close", "polls_completed", "lookups_during_reads", "expiry_sweeps", "parked_probes_completed", "reader_serial_transitions", "read_after_poll_checks", "handles_obtained_during_poll")
+	r.Require("rollback_polls_after_a_failed_poll", "handle_reads_during_updater_storm", "reads_after_close_with_cache_fault", "rollback_polls", "handles_from_racing_lookups", "reads_validated", "reads_after_close", "polls_completed", "lookups_during_reads", "expiry_sweeps", "parked_probes_completed", "reader_serial_transitions", "read_after_poll_checks", "handles_obtained_during_poll")
 	r.Rule("stress repetitions: 16 reader goroutines over handles of 3 declared + up to 4 looked-up secrets, concurrent with a background poller on a fast ticker, explicit Refresh callers, a service that keeps installing new values, lookups of fresh names, expiry sweeps driven by an injected clock, then Close with readers continuing; every read validated. Parked-request probes: while a poll/lookup/initial request is parked in the service, every handle is called 100 times. Distinct = (reader serial transition kind x concurrent event) and probe kinds")
 }
 
@@ -148,15 +148,20 @@ func stressRep(t *testing.T, r *evid.Run, rep int) {
 		w.bump(n)
 	}
 	var delayMu sync.Mutex
+	var quiet atomic.Bool // set when the final, decisive polls run
 	drng := rand.New(rand.NewPCG(uint64(rep), 23))
 	w.svc.Behave = func(q *fakesvc.Req) fakesvc.Behaviour {
 		delayMu.Lock()
 		defer delayMu.Unlock()
-		switch drng.IntN(6) {
+		switch drng.IntN(8) {
 		case 0:
 			return fakesvc.Behaviour{Delay: time.Duration(drng.IntN(300)) * time.Microsecond}
 		case 1:
 			runtime.Gosched()
+		case 2:
+			if q.Cond && !quiet.Load() {
+				return fakesvc.Behaviour{Fail: fakesvc.ErrInjected} // a poll request fails now and then (error paths run beside lookups)
+			}
 		}
 		return fakesvc.Behaviour{}
 	}
@@ -705,6 +710,47 @@ func rollbacks(t *testing.T, r *evid.Run) {
 		st.Close()
 	}
 	r.Distinct("rollback then poll")
+	// the same with a poll that FAILS in between: the newer version arrives in a round in which another secret's
+	// request errors (so nothing of that round counts), the operator goes back, the next round succeeds
+	for i, n := 0, r.N(200, 2000); i < n; i++ {
+		r.Eval(1)
+		svc := fakesvc.New()
+		v1, v2 := []byte(fmt.Sprintf("one-%d", i)), []byte(fmt.Sprintf("two-%d", i))
+		svc.Set("s", 1, v1)
+		svc.Set("t", 1, []byte("t-one"))
+		failT := false
+		svc.Behave = func(q *fakesvc.Req) fakesvc.Behaviour {
+			if failT && q.Name == "t" {
+				return fakesvc.Behaviour{Fail: fakesvc.ErrInjected}
+			}
+			return fakesvc.Behaviour{}
+		}
+		st, err := setec.NewStore(context.Background(), setec.StoreConfig{Client: svc, Secrets: []string{"s", "t"}, Cache: &fakesvc.MonCache{}, PollInterval: -1, Logf: func(string, ...any) {}})
+		if err != nil {
+			t.Fatal(err)
+		}
+		h := st.Secret("s")
+		svc.Set("s", 2, v2)
+		failT = true
+		perr := st.Refresh(context.Background())
+		failT = false
+		mid := string(h.Get())
+		if mid != string(v1) && mid != string(v2) {
+			r.Violation("never-served-value", -1, fmt.Sprintf("rollback-after-failed-poll case %d: the handle yields %q", i, mid), nil)
+		}
+		svc.Set("s", 1, v1) // the operator withdraws version 2
+		if err := st.Refresh(context.Background()); err != nil {
+			t.Fatal(err)
+		}
+		r.Count("rollback_polls_after_a_failed_poll", 1)
+		if got := string(h.Get()); got != string(v1) {
+			r.Violation("stale-after-completed-poll", -1, fmt.Sprintf("rollback case %d: version 2 showed up in a poll that failed (%v), the service went back to version 1 and a poll completed without error, yet the handle yields %q", i, perr, got), nil)
+			st.Close()
+			return
+		}
+		st.Close()
+	}
+	r.Distinct("failed poll, rollback, poll")
 }
 
 // afterClose: a handle keeps answering after the store has been closed - also when the last cache write,
